@@ -685,6 +685,7 @@ fn generate_moves_for_piece(
         let en_passant = pawn_moves_en_passant(piece, square_cords.0, square_cords.1, board);
         if let Some(mov) = en_passant {
             let mut new_board = board.clone();
+            new_board.pawn_promotion = None;
             new_board.last_move = Some((square_cords, mov));
             new_board.swap_color(zobrist_hasher);
             new_board.unset_pawn_double_move(zobrist_hasher);
@@ -719,6 +720,7 @@ fn generate_castling_moves(
 ) {
     if board.to_move == White && can_castle(board, &CastlingType::WhiteKingSide) {
         let mut new_board = board.clone();
+        new_board.pawn_promotion = None;
         new_board.swap_color(zobrist_hasher);
         new_board.unset_pawn_double_move(zobrist_hasher);
         new_board.take_away_castling_rights(CastlingType::WhiteKingSide, zobrist_hasher);
@@ -742,6 +744,7 @@ fn generate_castling_moves(
 
     if board.to_move == White && can_castle(board, &CastlingType::WhiteQueenSide) {
         let mut new_board = board.clone();
+        new_board.pawn_promotion = None;
         new_board.swap_color(zobrist_hasher);
         new_board.unset_pawn_double_move(zobrist_hasher);
         new_board.take_away_castling_rights(CastlingType::WhiteKingSide, zobrist_hasher);
@@ -765,6 +768,7 @@ fn generate_castling_moves(
 
     if board.to_move == Black && can_castle(board, &CastlingType::BlackKingSide) {
         let mut new_board = board.clone();
+        new_board.pawn_promotion = None;
         new_board.swap_color(zobrist_hasher);
         new_board.unset_pawn_double_move(zobrist_hasher);
         new_board.take_away_castling_rights(CastlingType::BlackKingSide, zobrist_hasher);
@@ -788,6 +792,7 @@ fn generate_castling_moves(
 
     if board.to_move == Black && can_castle(board, &CastlingType::BlackQueenSide) {
         let mut new_board = board.clone();
+        new_board.pawn_promotion = None;
         new_board.swap_color(zobrist_hasher);
         new_board.unset_pawn_double_move(zobrist_hasher);
         new_board.take_away_castling_rights(CastlingType::BlackKingSide, zobrist_hasher);
